@@ -9,11 +9,18 @@ EXTENDS Ast, TLC, Json
 Names == {"constant", "const_", "modifyx", "modifier", "exporter", "export1", "importer", "imports", "nilx", "nil_", "nile",
           "printer", "print_", "returned", "iffy", "elsewhere", "whiley", "fromage", "tox", "throughput", "stepper", "typed", "type_",
           "classy", "fnx", "selfish", "self_", "getter", "get_", "notx", "truex", "falsey", "asserted", "breaker", "continued", "orx", "isx", "mapper", "typeofx",
-          "xconst", "my_const", "xnil", "ximport", "xexport", "xmodify", "a1", "_x", "x_", "__", "A", "Zz9"}
-Roles == {"var", "typed", "param", "counter", "fnname", "listvar", "captured", "optional"}
+          "xconst", "my_const", "xnil", "ximport", "xexport", "xmodify", "a1", "_x", "x_", "__", "A", "Zz9",
+          \* names that look like the labels the compiler gives to the functions it generates
+          "__fn0", "__fn1", "__fn", "__module__", "__module"}
+Roles == {"var", "typed", "param", "counter", "fnname", "listvar", "captured", "optional", "classname", "method", "method_twice"}
+\* "method_twice": a class that declares the method twice.  The language does not say which declaration counts (the implementation
+\* keeps the last one), so C01 leaves these programs out; C04 / C18 use them: whatever `run` does, `execute` must do as well.
+(* `__module__` and `__fn<n>` cannot name a class (a class is compiled to a function of its name, and these are the names of *)
+(* the functions the compiler generates): a diagnostic since the repair of C01-class-named-like-a-generated-function         *)
+Reserved == {"__fn0", "__fn1", "__module__"}
 
 VARIABLES name, role
-Init == name \in Names /\ role \in Roles
+Init == name \in Names /\ role \in Roles /\ ~(role = "classname" /\ name \in Reserved)
 Next == UNCHANGED <<name, role>>
 
 N == V(name)
@@ -28,6 +35,22 @@ Body ==
                                Assign(Idx(N, V("k0")), "+", I(4)), Print(N), Print(MCall(N, "len", <<>>))>>
       [] role = "captured" -> <<Let("mk", Fn("mk", <<>>, "fn() -> int", <<Let(name, I(3)), Ret(Fn("lit", <<>>, "int", <<Modify(name, Bin("+", N, I(1))), Ret(N)>>))>>)),
                                 Let("g", Call(V("mk"), <<>>)), Print(Call(V("g"), <<>>)), Print(Call(V("g"), <<>>))>>
+      [] role = "classname" ->
+           <<[k |-> "class", n |-> name, export |-> FALSE, fields |-> <<[n |-> "v", ty |-> "int"]>>,
+              ctor |-> <<[ps |-> <<>>, b |-> <<Assign(Fld(Self, "v"), "=", I(42))>>]>>,
+              methods |-> <<[n |-> "val", ps |-> <<>>, rt |-> "int", b |-> <<Ret(Fld(Self, "v"))>>]>>],
+             Let("lam", Fn("lam", <<>>, "int", <<Ret(I(20))>>)), Let("lam2", Fn("lam2", <<>>, "int", <<Ret(I(21))>>)),
+             Let("ob", New(name, <<>>)), Print(MCall(V("ob"), "val", <<>>)), Print(Call(V("lam"), <<>>)), Print(Call(V("lam2"), <<>>))>>
+      [] role = "method" ->
+           <<[k |-> "class", n |-> "KM", export |-> FALSE, fields |-> <<>>, ctor |-> <<>>,
+              methods |-> <<[n |-> name, ps |-> <<P("q", "int")>>, rt |-> "int", b |-> <<Ret(Bin("+", V("q"), I(7)))>>]>>],
+             Let("lam", Fn("lam", <<>>, "int", <<Ret(I(20))>>)),
+             Let("ob", New("KM", <<>>)), Print(MCall(V("ob"), name, <<I(1)>>)), Print(Call(V("lam"), <<>>))>>
+      [] role = "method_twice" ->
+           <<[k |-> "class", n |-> "KM", export |-> FALSE, fields |-> <<>>, ctor |-> <<>>,
+              methods |-> <<[n |-> name, ps |-> <<P("q", "int")>>, rt |-> "int", b |-> <<Ret(Bin("+", V("q"), I(7)))>>],
+                            [n |-> name, ps |-> <<P("q", "int")>>, rt |-> "int", b |-> <<Ret(Bin("*", V("q"), I(100)))>>]>>],
+             Let("ob", New("KM", <<>>)), Print(MCall(V("ob"), name, <<I(3)>>))>>
       [] role = "optional" -> <<LetT(name, "int?", Nil), Print(Bin("==", N, Nil)), Print(Or(N, I(4))), LetT(name, "int?", I(8)), Print(Get(N)), Print(Or(N, I(4)))>>
 
 EmitCase == PrintT("CASE " \o ToJson([name |-> name, role |-> role, prog |-> [body |-> <<Print(S("S"))>> \o Body \o <<Print(S("E"))>>]]))
